@@ -2,6 +2,8 @@ package main
 
 import (
 	"fmt"
+	"os"
+	"regexp"
 	"go/token"
 	"go/types"
 	"slices"
@@ -288,7 +290,19 @@ func (x *Exec) runFrame(fr *frame) {
 			if x.steps > x.eng.cfg.MaxSteps {
 				abortf("instruction budget %d exhausted (unwinding bound)", x.eng.cfg.MaxSteps)
 			}
-			if x.visitInstr(fr, instr) == kReturn {
+			k := x.visitInstr(fr, instr)
+			if traceRe != nil && traceRe.MatchString(fr.fn.String()) {
+				if v, ok := instr.(ssa.Value); ok {
+					var val Value
+					if i, ok := fr.idx[v]; ok {
+						val = fr.env[i]
+					}
+					fmt.Fprintf(os.Stderr, "  %s: %s = %s   => %s\n", fr.fn.Name(), v.Name(), instr, describe(val))
+				} else {
+					fmt.Fprintf(os.Stderr, "  %s: %s\n", fr.fn.Name(), instr)
+				}
+			}
+			if k == kReturn {
 				return
 			}
 		}
@@ -328,6 +342,13 @@ func (x *Exec) executePhis(fr *frame) []ssa.Instruction {
 	}
 	return nonPhis
 }
+
+var traceRe = func() *regexp.Regexp {
+	if p := os.Getenv("GOSYM_TRACE"); p != "" {
+		return regexp.MustCompile(p)
+	}
+	return nil
+}()
 
 type continuation int
 
@@ -407,6 +428,9 @@ func (x *Exec) visitInstr(fr *frame, instr ssa.Instruction) continuation {
 
 	case *ssa.Panic:
 		v := fr.get(instr.X)
+		if os.Getenv("GOSYM_DEBUG") != "" {
+			fmt.Fprintf(os.Stderr, "target panic at %s: %s\n", x.posOf(instr), x.describePanic(v))
+		}
 		panic(targetPanic{v: v, desc: "panic: " + x.describePanic(v), pos: x.posOf(instr)})
 
 	case *ssa.Send:
@@ -425,7 +449,7 @@ func (x *Exec) visitInstr(fr *frame, instr ssa.Instruction) continuation {
 			x.runtimePanic(fr, "invalid memory address or nil pointer dereference")
 		}
 		x.noteWrite(p)
-		*p = copyVal(fr.get(instr.Val))
+		storeInto(p, fr.get(instr.Val))
 
 	case *ssa.If:
 		c := fr.get(instr.Cond).(*Term)
@@ -462,21 +486,53 @@ func (x *Exec) visitInstr(fr *frame, instr ssa.Instruction) continuation {
 		*addr = x.zero(deref(instr.Type()))
 
 	case *ssa.MakeSlice:
-		n := x.asInt(fr, fr.get(instr.Len), "make len")
-		c := x.asInt(fr, fr.get(instr.Cap), "make cap")
 		tElt := instr.Type().Underlying().(*types.Slice).Elem()
+		lt, ct := fr.get(instr.Len).(*Term), fr.get(instr.Cap).(*Term)
+		esz := x.sizeof(tElt)
+		if esz == 0 {
+			esz = 1
+		}
+		if !lt.IsConst() || !ct.IsConst() {
+			// symbolic size: the run-time checks become solver questions
+			f := x.f
+			bad := f.Or(f.Bin(OpSlt, lt, f.Const(64, 0)), f.Bin(OpSlt, ct, lt))
+			// the runtime also rejects sizes beyond the address space
+			bad = f.Or(bad, f.Bin(OpUlt, f.Const(64, uint64(1<<47)/uint64(esz)), ct))
+			if x.decide(fr, bad) {
+				x.runtimePanic(fr, "makeslice: len out of range")
+			}
+			if x.allocLimit > 0 {
+				over := f.Bin(OpUlt, f.Const(64, uint64(x.allocLimit/esz)), ct)
+				if x.decide(fr, over) {
+					x.violate("alloc", "allocation whose size is taken from the input can exceed the budget proportional to the input", x.posOf(instr))
+					panic(pathEnd{"allocation limit"})
+				}
+			}
+			if !lt.IsConst() {
+				lt = f.Const(64, x.concretize(fr, lt, "make len"))
+			}
+			if !ct.IsConst() {
+				// capacity is not observable except through aliasing: use the smallest legal one
+				ct = lt
+			}
+		}
+		n, c := int(lt.SVal()), int(ct.SVal())
 		if n < 0 || c < n {
 			x.runtimePanic(fr, "makeslice: len out of range")
 		}
-		x.noteAlloc(fr, int64(c)*x.sizeof(tElt))
+		x.noteAlloc(fr, int64(c)*esz)
+		if x.allocLimit > 0 && int64(c)*esz > x.allocLimit {
+			x.violate("alloc", "allocation exceeds the budget proportional to the input", x.posOf(instr))
+			panic(pathEnd{"allocation limit"})
+		}
 		if c > x.eng.cfg.MaxAlloc {
 			abortf("make([]T, %d) beyond engine allocation bound", c)
 		}
-		s := make([]Value, c)
-		for i := range s {
-			s[i] = x.zero(tElt)
+		sl := make([]Value, c)
+		for i := range sl {
+			sl[i] = x.zero(tElt)
 		}
-		fr.set(instr, Slice{v: s[:n]})
+		fr.set(instr, Slice{v: sl[:n]})
 
 	case *ssa.MakeMap:
 		mt := instr.Type().Underlying().(*types.Map)
@@ -968,4 +1024,27 @@ func (e *Engine) valueIndex(fn *ssa.Function) map[ssa.Value]int {
 	}
 	e.idxCache[fn] = m
 	return m
+}
+
+// storeInto assigns v to the cell p. Aggregates are copied element-wise INTO the existing
+// storage so that addresses of fields/elements taken earlier stay valid (go/ssa takes field
+// addresses before a whole-struct store, e.g. `*b = T{...}` followed by `*t0 = x`).
+func storeInto(p *Value, v Value) {
+	switch nv := v.(type) {
+	case Struct:
+		if old, ok := (*p).(Struct); ok && len(old) == len(nv) {
+			for i := range nv {
+				storeInto(&old[i], nv[i])
+			}
+			return
+		}
+	case Array:
+		if old, ok := (*p).(Array); ok && len(old) == len(nv) {
+			for i := range nv {
+				storeInto(&old[i], nv[i])
+			}
+			return
+		}
+	}
+	*p = copyVal(v)
 }
